@@ -15,8 +15,7 @@ def main(tier, seed):
     for part in core.pmap(_run, jobs):
         rep.merge(part)
     c = rep.counters
-    if not (c["expected.special"] and c["expected.not-special"]):
-        raise core.Inconclusive("generator did not produce both classes")
+    rep.require(not (not (c["expected.special"] and c["expected.not-special"])), "generator did not produce both classes")
     rep.assumptions += ["only valid host names without root dot are judged (the statement's scope)"]
     return rep.finish(c["calls"], rep.distinct_count,
                       "every reserved suffix and every one-edit neighbour (insert/delete/substitute over [a-z0-9-.]) bare and "
